@@ -53,8 +53,12 @@ def plan(rng, tier):
             single.append(["change", _num(rng)])
         elif r < 0.55:
             single.append(["set", _num(rng)])
-        elif r < 0.7:
+        elif r < 0.66:
             single.append(["call"])
+        elif r < 0.7:
+            # the resolver asked for an answer on a LIVE counter (a plain
+            # function of its three arguments: the cell is not its business)
+            single.append(["resolve", _num(rng), _num(rng), _num(rng)])
         elif r < 0.76:
             # state protocol on a live object: x.__setstate__(y.__getstate__())
             single.append(["setstate", rng.choice([0, 0, _num(rng)])])
@@ -169,6 +173,19 @@ def _single(plan, ctx):
             cell = op[1]
         elif name == "call":
             pass
+        elif name == "resolve":
+            changed = ln._p_changed
+            nreg = len(c.registered)
+            got = ln._p_resolveConflict(op[1], op[2], op[3])
+            if got != op[2] + op[3] - op[1]:
+                raise Violation({"oracle": "length-seam", "on": "live"},
+                                "resolve(%r,%r,%r) -> %r" % (
+                                    op[1], op[2], op[3], got))
+            if ln._p_changed != changed or len(c.registered) != nreg:
+                raise Violation({"oracle": "length-cell", "at": "resolve",
+                                 "what": "registered"},
+                                "resolving on a live counter marked it "
+                                "changed")
         elif name == "setstate":
             ln.__setstate__(Length(op[1]).__getstate__())
             ln._p_changed = True
